@@ -21,6 +21,29 @@ use std::collections::{BTreeMap, btree_map};
 use std::str;
 use std::sync::OnceLock;
 
+// The encoder writes every integer outside the 32-bit range as a big integer and the decoder
+// hands it back as `BigInt`, so after a trip through bytes the integer deserializers must
+// accept that representation too (within the range of the requested type).
+fn narrow_bigint<T: TryFrom<i64>>(big: &erltf::types::BigInt, ty: &str) -> Result<T> {
+    let out_of_range = || Error::InvalidValue(format!("big integer out of range for {}", ty));
+    if big.digits.iter().skip(8).any(|&d| d != 0) {
+        return Err(out_of_range());
+    }
+    let mut magnitude = 0u64;
+    for (i, &d) in big.digits.iter().take(8).enumerate() {
+        magnitude |= (d as u64) << (8 * i);
+    }
+    let value = if big.sign.is_negative() {
+        if magnitude > i64::MAX as u64 + 1 {
+            return Err(out_of_range());
+        }
+        (magnitude as i64).wrapping_neg()
+    } else {
+        i64::try_from(magnitude).map_err(|_| out_of_range())?
+    };
+    T::try_from(value).map_err(|_| out_of_range())
+}
+
 pub fn from_bytes<T: for<'a> Deserialize<'a>>(bytes: &[u8]) -> Result<T> {
     let term = erltf::decode(bytes).map_err(|e| Error::Erltf(e.into()))?;
     from_term(&term)
@@ -125,6 +148,7 @@ impl<'de> SerdeDeserializer<'de> for &mut Deserializer<'de> {
             OwnedTerm::Integer(i) => i8::try_from(*i)
                 .map_err(|_| Error::InvalidValue(format!("integer {} out of range for i8", i)))
                 .and_then(|v| visitor.visit_i8(v)),
+            OwnedTerm::BigInt(big) => narrow_bigint::<i8>(big, "i8").and_then(|v| visitor.visit_i8(v)),
             _ => Err(Error::TypeMismatch {
                 expected: "integer".into(),
                 found: format!("{:?}", self.term),
@@ -137,6 +161,7 @@ impl<'de> SerdeDeserializer<'de> for &mut Deserializer<'de> {
             OwnedTerm::Integer(i) => i16::try_from(*i)
                 .map_err(|_| Error::InvalidValue(format!("integer {} out of range for i16", i)))
                 .and_then(|v| visitor.visit_i16(v)),
+            OwnedTerm::BigInt(big) => narrow_bigint::<i16>(big, "i16").and_then(|v| visitor.visit_i16(v)),
             _ => Err(Error::TypeMismatch {
                 expected: "integer".into(),
                 found: format!("{:?}", self.term),
@@ -149,6 +174,7 @@ impl<'de> SerdeDeserializer<'de> for &mut Deserializer<'de> {
             OwnedTerm::Integer(i) => i32::try_from(*i)
                 .map_err(|_| Error::InvalidValue(format!("integer {} out of range for i32", i)))
                 .and_then(|v| visitor.visit_i32(v)),
+            OwnedTerm::BigInt(big) => narrow_bigint::<i32>(big, "i32").and_then(|v| visitor.visit_i32(v)),
             _ => Err(Error::TypeMismatch {
                 expected: "integer".into(),
                 found: format!("{:?}", self.term),
@@ -159,6 +185,7 @@ impl<'de> SerdeDeserializer<'de> for &mut Deserializer<'de> {
     fn deserialize_i64<V: Visitor<'de>>(self, visitor: V) -> Result<V::Value> {
         match self.term {
             OwnedTerm::Integer(i) => visitor.visit_i64(*i),
+            OwnedTerm::BigInt(big) => narrow_bigint::<i64>(big, "i64").and_then(|v| visitor.visit_i64(v)),
             _ => Err(Error::TypeMismatch {
                 expected: "integer".into(),
                 found: format!("{:?}", self.term),
@@ -171,6 +198,7 @@ impl<'de> SerdeDeserializer<'de> for &mut Deserializer<'de> {
             OwnedTerm::Integer(i) => u8::try_from(*i)
                 .map_err(|_| Error::InvalidValue(format!("integer {} out of range for u8", i)))
                 .and_then(|v| visitor.visit_u8(v)),
+            OwnedTerm::BigInt(big) => narrow_bigint::<u8>(big, "u8").and_then(|v| visitor.visit_u8(v)),
             _ => Err(Error::TypeMismatch {
                 expected: "integer".into(),
                 found: format!("{:?}", self.term),
@@ -183,6 +211,7 @@ impl<'de> SerdeDeserializer<'de> for &mut Deserializer<'de> {
             OwnedTerm::Integer(i) => u16::try_from(*i)
                 .map_err(|_| Error::InvalidValue(format!("integer {} out of range for u16", i)))
                 .and_then(|v| visitor.visit_u16(v)),
+            OwnedTerm::BigInt(big) => narrow_bigint::<u16>(big, "u16").and_then(|v| visitor.visit_u16(v)),
             _ => Err(Error::TypeMismatch {
                 expected: "integer".into(),
                 found: format!("{:?}", self.term),
@@ -195,6 +224,7 @@ impl<'de> SerdeDeserializer<'de> for &mut Deserializer<'de> {
             OwnedTerm::Integer(i) => u32::try_from(*i)
                 .map_err(|_| Error::InvalidValue(format!("integer {} out of range for u32", i)))
                 .and_then(|v| visitor.visit_u32(v)),
+            OwnedTerm::BigInt(big) => narrow_bigint::<u32>(big, "u32").and_then(|v| visitor.visit_u32(v)),
             _ => Err(Error::TypeMismatch {
                 expected: "integer".into(),
                 found: format!("{:?}", self.term),
